@@ -66,6 +66,7 @@ func NewPrivateMemCachedStore(lower Store) *MemCachedStore {
 // lock write-locks non-private store.
 func (s *MemCachedStore) lock() {
 	if !s.private {
+		verifLockYield("lock")
 		s.mut.Lock()
 	}
 }
@@ -80,6 +81,7 @@ func (s *MemCachedStore) unlock() {
 // rlock read-locks non-private store.
 func (s *MemCachedStore) rlock() {
 	if !s.private {
+		verifLockYield("rlock")
 		s.mut.RLock()
 	}
 }
@@ -395,6 +397,7 @@ func (s *MemCachedStore) persist(isSync bool) (int, error) {
 
 	s.plock.Lock()
 	defer s.plock.Unlock()
+	verifLockYield("persist-swap")
 	s.mut.Lock()
 
 	keys = len(s.mem) + len(s.stor)
@@ -417,6 +420,7 @@ func (s *MemCachedStore) persist(isSync bool) (int, error) {
 	err = tempstore.ps.PutChangeSet(tempstore.mem, tempstore.stor)
 
 	if !isSync {
+		verifLockYield("persist-finish")
 		s.mut.Lock()
 	}
 	if err == nil {
